@@ -105,6 +105,10 @@ func (d *stubDesc) genCases(g *Rng, perDesc int) {
 			}
 		case r < 8 && len(t.Errors) > 0:
 			c.scenario = "error"
+			if g.Chance(1, 4) {
+				// an error reply to an upgrade call, through the generated Upgrade stub: the typed error comes back
+				c.flags = 8
+			}
 			e := t.Errors[g.Intn(len(t.Errors))]
 			c.errName = e.Name
 			for _, f := range errFields(e) {
@@ -147,6 +151,9 @@ func (d *stubDesc) genCases(g *Rng, perDesc int) {
 			c.rawFrame = `{"parameters":{` + strings.Join(parts, ",") + `},"method":"` + t.Name + `.` + m.Name + `"}`
 		case r < 9:
 			c.scenario = "notimpl"
+			if g.Chance(1, 3) {
+				c.flags = 8
+			}
 		case r < 10:
 			c.scenario = "unknown"
 			c.rawFrame = `{"method":"` + t.Name + `.` + g.Pick([]string{"Nope", "", "m", m.Name + "x", strings.ToLower(m.Name)}) + `"}`
